@@ -4,7 +4,7 @@ import random
 from core import Case, yml, logging_build
 
 
-def _graphs(seed):
+def _graphs(seed, nrandom=6):
     """each graph: dict name -> (kind, deps); kind in build|agg"""
     gs = []
     gs.append(("chain3", {"a": ("build", []), "b": ("build", ["a"]), "c": ("build", ["b"])}, ["c"]))
@@ -14,7 +14,7 @@ def _graphs(seed):
     gs.append(("shared+explicit", {"a": ("build", []), "b": ("build", ["a"]), "c": ("build", ["a", "b"])}, ["c", "a", "b"]))
     gs.append(("late-requester", dict([("b", ("build", []))] + [("a%d" % i, ("agg", ["b" if i == 0 else "a%d" % (i - 1)])) for i in range(25)] + [("top", ("build", ["b", "a24"]))]), ["top"]))
     rnd = random.Random(seed)
-    for k in range(6):
+    for k in range(nrandom):
         n = rnd.randint(4, 8)
         names = ["t%d" % i for i in range(n)]
         g = {}
@@ -153,9 +153,39 @@ def killed_script_case(sig):
     return fn
 
 
-def cases(seed):
+def broken_variant_case(gname, g, roots, seed):
+    """a valid random DAG with one back edge added: rejected up front iff the cycle is reachable from the roots"""
+    import random
+    rnd = random.Random(seed)
+    names = list(g)
+    def fn(pr):
+        for attempt in range(20):
+            a, b = rnd.sample(names, 2)
+            # b is reachable from a in the valid graph -> adding b -> a closes a cycle
+            if b in _closure(g, [a]) and a != b:
+                break
+        else:
+            return None
+        g2 = {k: (v[0], list(v[1])) for k, v in g.items()}
+        g2[b] = (g2[b][0], g2[b][1] + [a])
+        reachable = b in _closure(g, roots)
+        pr.write("zinoma.yml", yml(_targets(g2)))
+        r = pr.run(*roots, timeout=20)
+        if reachable:
+            if r.timed_out or r.rc == 0 or pr.log():
+                return {"property": "C09", "expected": "graph %s with the extra edge %s -> %s has a cycle reachable from %s: refused up front (non-zero exit, no script)" % (gname, b, a, roots), "observed": "exit %s timed_out %s log %s" % (r.rc, r.timed_out, pr.log()), "zinoma": r.brief()}
+        else:
+            if r.timed_out or r.rc != 0:
+                return {"property": "C09", "expected": "the cycle %s <-> %s is not reachable from %s: the run proceeds" % (a, b, roots), "observed": "exit %s timed_out %s" % (r.rc, r.timed_out), "zinoma": r.brief()}
+        return None
+    return fn
+
+
+def cases(seed, tier="quick"):
     out = [Case("graph", "killed-script-" + s, killed_script_case(s), "script killed by SIG%s counts as failed" % s) for s in ("KILL", "TERM", "SEGV")]
-    for (gname, g, roots) in _graphs(seed):
+    for (gname, g, roots) in _graphs(seed, 24 if tier == "thorough" else 6):
+        if gname.startswith("random"):
+            out.append(Case("graph", "back-edge:" + gname, broken_variant_case(gname, g, roots, seed + len(g)), "a back edge added to %s" % gname))
         out.append(Case("graph", "order:" + gname, order_case(gname, g, roots), "one-shot run of graph %s roots %s: terminates, order, exactly once, only the closure" % (gname, roots)))
         builds = [t for t in _closure(g, roots) if g[t][0] == "build"]
         if gname != "late-requester" and builds:
